@@ -77,7 +77,8 @@ class KlongContext():
             # Check if variable exists in any scope
             for d in self._context:
                 if in_map(k, d):
-                    d[k] = v
+                    # wrap a Python callable exactly as for a new variable
+                    set_context_var(d, k, v)
                     return k
 
         # Variable doesn't exist - check strict mode
